@@ -99,37 +99,10 @@ func c01Core(c *Ctx, only string) {
 	for _, x := range xo {
 		e.Require("R2-revalidate-after-xover", "after-doXover", x, sinks, expiry, mac)
 	}
+	c01MacCompare(c)
 	if only == "C04" {
 		c01MacInput(c)
 		return
-	}
-
-	// R3: verifyCurrentMAC succeeds only through a non-zero ConstantTimeCompare of
-	// hopField.Mac[:6] with FullMAC(mac, infoField, hopField)[:6].
-	if v := c.View(procT + ".verifyCurrentMAC"); v != nil {
-		ev := NewE1(c, v.Fn)
-		ev.Require("R3-mac-compare", "success-returns", nil, ev.SuccessReturns(),
-			ev.CallGuard(PassNonZero, "crypto/subtle.ConstantTimeCompare"))
-		full := "pkg/slayers/path.FullMAC(recv.mac, recv.infoField, recv.hopField, *)"
-		calls := v.Calls("crypto/subtle.ConstantTimeCompare")
-		okArgs := len(calls) >= 1
-		for _, ci := range calls {
-			a, b := ci.Args[0], ci.Args[1]
-			if !(wild("recv.hopField.Mac[:6]", a) || wild("recv.hopField.Mac[:]", a)) ||
-				!wild(full+"[:6]", b) {
-				if !(wild("recv.hopField.Mac[:6]", b) || wild("recv.hopField.Mac[:]", b)) ||
-					!wild(full+"[:6]", a) {
-					okArgs = false
-					c.Fail("R3-mac-compare", v.Name()+":compare-operands", ci.In.Pos(),
-						fmt.Sprintf("compares %s with %s; required hopField.Mac[:6] vs %s[:6]", a, b, full))
-				}
-			}
-		}
-		if okArgs {
-			c.OK("R3-mac-compare", v.Name()+":compare-operands", v.Fn.Pos(),
-				"ConstantTimeCompare(hopField.Mac[:6], FullMAC(mac, infoField, hopField)[:6])")
-		}
-		v.RequireStore("R3-mac-compare", 1, "recv.cachedMac", full)
 	}
 
 	// R4: validateHopExpiry succeeds only if Before(SecsToTime(info.Timestamp) +
@@ -235,6 +208,37 @@ func c01Outcome(c *Ctx, fq, spType, code, pointer string) {
 				got, reqStored, spType, code, pointer))
 	}
 	c.Min(v.Name()+":pSlowPath-returns", n, 1)
+}
+
+func c01MacCompare(c *Ctx) {
+
+	// R3: verifyCurrentMAC succeeds only through a non-zero ConstantTimeCompare of
+	// hopField.Mac[:6] with FullMAC(mac, infoField, hopField)[:6].
+	if v := c.View(procT + ".verifyCurrentMAC"); v != nil {
+		ev := NewE1(c, v.Fn)
+		ev.Require("R3-mac-compare", "success-returns", nil, ev.SuccessReturns(),
+			ev.CallGuard(PassNonZero, "crypto/subtle.ConstantTimeCompare"))
+		full := "pkg/slayers/path.FullMAC(recv.mac, recv.infoField, recv.hopField, *)"
+		calls := v.Calls("crypto/subtle.ConstantTimeCompare")
+		okArgs := len(calls) >= 1
+		for _, ci := range calls {
+			a, b := ci.Args[0], ci.Args[1]
+			if !(wild("recv.hopField.Mac[:6]", a) || wild("recv.hopField.Mac[:]", a)) ||
+				!wild(full+"[:6]", b) {
+				if !(wild("recv.hopField.Mac[:6]", b) || wild("recv.hopField.Mac[:]", b)) ||
+					!wild(full+"[:6]", a) {
+					okArgs = false
+					c.Fail("R3-mac-compare", v.Name()+":compare-operands", ci.In.Pos(),
+						fmt.Sprintf("compares %s with %s; required hopField.Mac[:6] vs %s[:6]", a, b, full))
+				}
+			}
+		}
+		if okArgs {
+			c.OK("R3-mac-compare", v.Name()+":compare-operands", v.Fn.Pos(),
+				"ConstantTimeCompare(hopField.Mac[:6], FullMAC(mac, infoField, hopField)[:6])")
+		}
+		v.RequireStore("R3-mac-compare", 1, "recv.cachedMac", full)
+	}
 }
 
 func c01MacInput(c *Ctx) {
